@@ -174,6 +174,56 @@ def suite_other(ctx, n):
     ctx.add_suite("inject-other", **st)
 
 
+# ------------------------------------------------------------------ suite: inject-async
+def async_docs(rng):
+    """failures outside the interpreter thread's blocks: in <finalize> (run when the event is dequeued), at the delivery of a
+    delayed <send> (on the timer thread), and Lua errors whose error object is no string. (document, ops, wanted event)"""
+    docs = []
+    H = '<scxml xmlns="http://www.w3.org/2005/07/scxml" version="1.0" datamodel="%s">'
+    for dm in ("lua", "promela", "null"):
+        pre = '<datamodel><data id="Var0" expr="0"/></datamodel>' if dm != "null" else ""
+        bad = rng.choice(charts.FAIL_FORMS[dm]["exec"]).replace("{uv}", "7")
+        child = (H % "null") + '<final id="f"/></scxml>'
+        docs.append(((H % dm) + pre + '<state id="s"><invoke type="scxml" id="i"><content>' + child + '</content><finalize>' + bad +
+                     '<log label="not-reached" uvid="8"/></finalize></invoke><transition event="done.invoke" target="t"/></state><state id="t"/></scxml>',
+                     "q,w:300,q,w:300,q", "bpe:error.execution"))
+    for tgt in ("#_nosuchinvoke", "#_scxml_nosuchsession", "!invalid"):
+        d = rng.choice([20, 50, 90])
+        docs.append(((H % "null") + '<state id="s"><onentry><send event="x" delay="%dms" target="%s" uvid="7"/></onentry>'
+                     '<transition event="error.communication" target="t"/><transition event="error.execution" target="t"/></state><state id="t"/></scxml>' % (d, tgt),
+                     rng.choice(["q,w:300,q,w:100,q", "q,b:400,q,b:100,q"]), "bpe:error."))
+    for obj in ("{code = 1}", "nil", "42", "setmetatable({}, {__tostring = function() return 'x' end})", "function() end", "true"):
+        docs.append(((H % "lua") + '<state id="s"><onentry><script uvid="7">error(%s)</script><raise event="after" uvid="8"/></onentry>'
+                     '<transition event="error.execution" target="t"/></state><state id="t"/></scxml>' % charts.esc(obj), "q", "bpe:error.execution"))
+    return docs
+
+
+def suite_async(ctx, n):
+    rng = ctx.rng
+    lines, want = [], []
+    for _ in range(n):
+        for x, ops, ev in async_docs(rng):
+            for eng in ("large", "fast"):
+                lines.append("%s\t-\t%s\t%s" % (eng, ops, hexs(x))); want.append((ev, x))
+    parts = list(chunks(lines, max(1, (len(lines) + 7) // 8)))
+    def work(part):
+        rc, h, err = ctx.harness_lines("api", part, variant="asan", timeout=1800)
+        if rc != 0 or len(h) != len(part): raise BrokenTie("harness", "uvharness api rc=%s" % rc)
+        return h
+    with ThreadPoolExecutor(8) as ex: H = [y for part in ex.map(work, parts) for y in part]
+    st = dict(inputs=len(lines), as_expected=0, violations=0)
+    for l, h, (ev, x) in zip(lines, H, want):
+        th = h.split(" ")
+        cfgs = [t for t in th if t.startswith("cfg:")]
+        ok = bad_token(th) is None and th[-1] == "end" and any(t.startswith(ev) for t in th) and cfgs and "t" in cfgs[-1][4:].split(",") and "log:not-reached" not in th
+        if ok: st["as_expected"] += 1; continue
+        st["violations"] += 1
+        if len(ctx.violations) < 4:
+            ctx.violation("async-%d" % len(ctx.violations), "inject-async", [l],
+                          detail="expected the failure to become an %s* event, nothing abnormal, and the chart to reach state t; trace tail: %s\ndocument: %s" % (ev[4:], " ".join(th[-10:]), x))
+    ctx.add_suite("inject-async", **st)
+
+
 # ------------------------------------------------------------------ suite: soup
 TAGS = ["state", "parallel", "final", "history", "initial", "transition", "onentry", "onexit", "raise", "if", "elseif", "else",
         "send", "log", "assign", "datamodel", "data", "donedata", "param", "content", "invoke", "finalize", "foreach", "script", "cancel", "scxml"]
@@ -260,8 +310,9 @@ def run(ctx):
         st = suite_inject(ctx, dm, n)
         tot += st["inputs"]; nontriv += st["with_error_events"]
     suite_other(ctx, 3 if quick else 40)
+    suite_async(ctx, 2 if quick else 30)
     suite_soup(ctx, 1200 if quick else 40000)
-    for s in ("forms", "inject-other", "soup"): tot += ctx.coverage["suites"][s]["inputs"]
+    for s in ("forms", "inject-other", "inject-async", "soup"): tot += ctx.coverage["suites"][s]["inputs"]
     ctx.coverage["evaluations"] = tot
     ctx.coverage["distinct_nontrivial"] = nontriv
     ctx.coverage["rule"] = ("random charts (3-12 states) whose executable blocks (onentry/onexit/transition, nested if/elseif/else) contain failing elements with p=0.3 per element, "
@@ -270,7 +321,7 @@ def run(ctx):
                             "and random element soup / corrupted valid charts with garbage expressions for crash-freedom"
                             % (len(charts.FAIL_FORMS["lua"]["exec"]) + 2, len(charts.FAIL_FORMS["promela"]["exec"]) + 2, len(charts.FAIL_FORMS["null"]["exec"]) + 2,
                                len(charts.COND_ERR["lua"]), len(charts.COND_ERR["promela"])))
-    ctx.assumptions += ["errors inside <finalize> and <invoke> evaluation are exercised with C11's machinery, not here",
+    ctx.assumptions += ["errors at the evaluation of <invoke> attributes are exercised with C11's machinery, not here; failing elements in <finalize>, failing delivery of delayed sends and non-string Lua error objects: suite inject-async",
                         "abnormal termination and out-of-bounds accesses are explored with ASan+UBSan on generated inputs, not proved",
                         "the ecmascript datamodel is not built in this sandbox"]
 
